@@ -78,6 +78,7 @@ func drawXZCase(t *rapid.T) caseXZ {
 	// shapes that need several chunk kinds inside one block: incompressible
 	// runs long enough for two or more uncompressed chunks, followed (or
 	// interleaved) by compressible data
+	forceSingle := false
 	if maxTotal >= 400000 {
 		rnd := func(lo, hi int) gen.Seg {
 			return gen.Seg{Kind: "random", Len: rapid.IntRange(lo, hi).Draw(t, "rawlen"), Seed: rapid.Uint64().Draw(t, "rawseed")}
@@ -85,7 +86,15 @@ func drawXZCase(t *rapid.T) caseXZ {
 		txt := func() gen.Seg {
 			return gen.Seg{Kind: "text", K: 4, Len: rapid.IntRange(300, 30000).Draw(t, "txtlen"), Seed: rapid.Uint64().Draw(t, "txtseed")}
 		}
-		switch rapid.IntRange(0, 15).Draw(t, "shape") {
+		switch rapid.IntRange(0, 17).Draw(t, "shape") {
+		case 4:
+			// a chunk closed by the 64 KiB compressed limit (bytes left pending in
+			// the look-ahead) and then more than 2 MiB of highly compressible data,
+			// in one Write call half of the time
+			if c.Cfg.Matcher == 0 && maxTotal >= 2400000 {
+				c.Data = gen.Recipe{rnd(66000, 140000), {Kind: "run", B: rapid.Byte().Draw(t, "runbyte"), Len: rapid.IntRange(2097152-70000, 2097152+150000).Draw(t, "runlen")}, txt()}
+				forceSingle = rapid.Bool().Draw(t, "single")
+			}
 		case 0:
 			c.Data = gen.Recipe{rnd(131072, 200000), txt()}
 		case 1:
@@ -120,6 +129,9 @@ func drawXZCase(t *rapid.T) caseXZ {
 		marks = append([]int{int(bs), int(2 * bs)}, marks...)
 	}
 	c.Part = gen.DrawPartition(t, n, marks...)
+	if forceSingle {
+		c.Part = gen.Partition{Kind: "single"}
+	}
 	c.Tail = rapid.SliceOfN(rapid.SampledFrom([]string{"close", "write0", "write"}), 0, 3).Draw(t, "tail")
 	return c
 }
